@@ -272,6 +272,45 @@ func c11RoleManagerFaults(c *Ctx) {
 		}
 		c.Count("rm-failure-during-load")
 	}
+	// two role definitions: the failure of EITHER manager must surface and roll back, whichever
+	// order the definitions are rebuilt in (Go map order: repeated trials)
+	for _, which := range []string{"g", "g2"} {
+		for j := 1; j <= 2; j++ {
+			for trial := 0; trial < 12; trial++ {
+				mm, _ := model.NewModelFromString(machRBAC.Text)
+				a := newRecAdapter()
+				a.Content = []prule{{"p", []string{"admin", "data1", "read"}}, {"g", []string{"alice", "admin"}}, {"g", []string{"admin", "root"}},
+					{"g2", []string{"data1", "grp"}}, {"g2", []string{"grp", "all"}}}
+				e, _ := casbin.NewEnforcer(mm)
+				frms := map[string]*c11FailingRM{}
+				for _, pt := range []string{"g", "g2"} {
+					frms[pt] = &c11FailingRM{RoleManager: defaultrolemanager.NewRoleManagerImpl(10)}
+					e.SetNamedRoleManager(pt, frms[pt])
+				}
+				e.SetAdapter(a)
+				id := fmt.Sprintf("c11.rm2.load.%s.j%d", which, j)
+				if err := e.LoadPolicy(); err != nil {
+					c.Direct(id, "initial load failed", "")
+					continue
+				}
+				m := &mach{Conf: machRBAC, E: e, A: a}
+				names := []string{"alice", "admin", "root", "zed", "data1", "grp", "all"}
+				before := m.linksKey("g", names, nil) + "/" + m.linksKey("g2", names, nil)
+				lb := m.listedKey()
+				a.Content = append(a.Content, prule{"g", []string{"zed", "admin"}}, prule{"g2", []string{"all", "zed"}})
+				frms[which].calls, frms[which].failAt = 0, j
+				err := e.LoadPolicy()
+				frms[which].failAt = 0
+				after := m.linksKey("g", names, nil) + "/" + m.linksKey("g2", names, nil)
+				if err == nil {
+					c.Direct(id, "LoadPolicy did not report the error of the role manager of "+which+" (two role definitions)", id)
+				} else if after != before || m.listedKey() != lb {
+					c.Direct(id, "LoadPolicy failed while rebuilding the links of "+which+" and left the enforcer changed", fmt.Sprintf("links %s -> %s listed %s -> %s", before, after, lb, m.listedKey()))
+				}
+				c.Count("rm-failure-during-load-two-definitions")
+			}
+		}
+	}
 	// F17 (known): a failing AddLink inside AddGroupingPolicy leaves the rule listed without link
 	mm, _ := model.NewModelFromString(c11Conf.Text)
 	e, _ := casbin.NewEnforcer(mm)
